@@ -167,11 +167,17 @@ Proof. exact drain_stop_spec. Qed.
 Theorem C15_no_stop_without_drain : forall s, f_drain s = NotDraining -> after_message s = (s, []).
 Proof. exact not_draining_never_stops. Qed.
 
-(* OPEN (hooks): forall c ops, hooks_of (concat (factory_run c ops)) = HStarted :: repeat HDraining k
-   ++ (if stopped then [HStopped] else []) -- the order started, draining, stopped over whole runs.
-   Proved pieces: init emits [EHook HStarted] (by computation), FDrain emits EHook HDraining first,
-   C15_drain_stops_when_idle gives HStopped last; the "no other function emits a hook" pass over the
-   model is not done.  The clause is enforced on every run by the oracle clause hooks_order. *)
+(* (F4') lifecycle hooks over EVERY run: started exactly once and first; then one draining hook
+   per DrainRequests that reached the living factory (exactly one for a single request); then,
+   iff the factory has stopped, the stopped hook exactly once and last; a stop is always preceded
+   by a draining hook *)
+Theorem C15_hooks_order : forall c ops,
+  let s := state_after c (fst (init c 0)) ops in
+  let k := drains_alive c (fst (init c 0)) ops in
+  hooks_of (concat (factory_run c ops)) = HStarted :: repeat HDraining k ++ stopped_hook (f_stopped s)
+  /\ (k <= count_drains ops)%nat
+  /\ (f_stopped s = true -> (1 <= k)%nat).
+Proof. exact hooks_order. Qed.
 
 (* (F5) a dispatch refused by the rate limiter is reported as RateLimited and rejected, and the
    limiter refuses exactly when its refreshed balance is empty (bucket theorems then bound admissions) *)
@@ -208,6 +214,12 @@ Check (C15_resize_converges : forall c ops,
   f_size s = target_after (c_n0 c) ops
   /\ (forall i, (exists w, find_w (f_pool s) i = Some w) <-> i < f_size s)
   /\ (forall i w, find_w (f_pool s) i = Some w -> w_drain w = false)).
+Check (C15_hooks_order : forall c ops,
+  let s := state_after c (fst (init c 0)) ops in
+  let k := drains_alive c (fst (init c 0)) ops in
+  hooks_of (concat (factory_run c ops)) = HStarted :: repeat HDraining k ++ stopped_hook (f_stopped s)
+  /\ (k <= count_drains ops)%nat
+  /\ (f_stopped s = true -> (1 <= k)%nat)).
 Check (C15_drain_refuses : forall c ops1 ops2 j,
   let s := state_after c (fst (step c (state_after c (fst (init c 0)) ops1) FDrain)) ops2 in
   existsb is_accept_ev (snd (step c s (FDispatch j))) = false).
@@ -300,5 +312,6 @@ Print Assumptions C15_drain_refuses.
 Print Assumptions C15_drain_refusal_shape.
 Print Assumptions C15_drain_stops_when_idle.
 Print Assumptions C15_no_stop_without_drain.
+Print Assumptions C15_hooks_order.
 Print Assumptions C15_bucket_reject_reported.
 Print Assumptions C15_rate_limited_iff_empty.
